@@ -44,9 +44,13 @@ func (v *variant) leave() { activeSpec = nil }
 // nil`): see PF.step, RunDefers.
 var activeCellFlags map[*ssa.Alloc]bool
 
+// activeParamFlags: boolean parameters bound to the constants a particular call passes while the callee is analysed for that
+// call (see PF.step).
+var activeParamFlags map[*ssa.Parameter]bool
+
 // specFlagValue: cond is (a negation of) a load of the active specialisation's flag field → the value the condition has.
 func specFlagValue(cond ssa.Value) (val bool, ok bool) {
-	if activeSpec == nil && len(activeCellFlags) == 0 {
+	if activeSpec == nil && len(activeCellFlags) == 0 && len(activeParamFlags) == 0 {
 		return false, false
 	}
 	pol := true
@@ -58,9 +62,24 @@ func specFlagValue(cond ssa.Value) (val bool, ok bool) {
 		}
 		break
 	}
+	if prm, isP := cond.(*ssa.Parameter); isP {
+		if v, known := activeParamFlags[prm]; known {
+			return v == pol, true
+		}
+	}
 	ld, isLd := cond.(*ssa.UnOp)
 	if !isLd || ld.Op != token.MUL {
 		return false, false
+	}
+	if cell := cellOf(ld.X); cell != nil {
+		// a spilled flag parameter
+		for _, st := range storesTo(cell) {
+			if prm, isP := st.Val.(*ssa.Parameter); isP && len(storesTo(cell)) == 1 {
+				if v, known := activeParamFlags[prm]; known {
+					return v == pol, true
+				}
+			}
+		}
 	}
 	if cell := cellOf(ld.X); cell != nil {
 		if v, known := activeCellFlags[cell]; known {
@@ -83,7 +102,7 @@ func specFlagValue(cond ssa.Value) (val bool, ok bool) {
 
 // specDead: b can only be reached through a branch on the flag that the active specialisation does not take.
 func specDead(b *ssa.BasicBlock) bool {
-	if activeSpec == nil && len(activeCellFlags) == 0 {
+	if activeSpec == nil && len(activeCellFlags) == 0 && len(activeParamFlags) == 0 {
 		return false
 	}
 	for _, g := range guardsOfRaw(b) {
